@@ -286,3 +286,495 @@ Proof. intros Hp H. destruct (wkt_normal_form _ _ H) as [-> _]. now symmetry. Qe
 
 Lemma wkt_undecodable p : ascii_ok p = false -> parse_wkt p = None.
 Proof. intros H. unfold parse_wkt. now rewrite H. Qed.
+
+(* ------------------------------------------------------------------------------------ *)
+(* classification lookup                                                                 *)
+(* ------------------------------------------------------------------------------------ *)
+Definition good_entry (e : Z * list Z) : Prop :=
+  byte_ok (fst e) = true /\ no_nul (snd e) = true /\ ascii_ok (snd e) = true
+  /\ bytes_ok (snd e) = true /\ (length (snd e) <= lookup_name_size)%nat.
+
+Definition enc_entry (e : Z * list Z) : list Z := fst e :: snd e ++ zeros (lookup_name_size - length (snd e)).
+
+Lemma lookup_entry_good c e : length c = lookup_entry_size -> bytes_ok c = true -> lookup_entry c = Some e -> good_entry e.
+Proof.
+  destruct c as [|k f]; [discriminate|]. intros Hl Hb. cbn [lookup_entry].
+  destruct (ascii_ok (cut_nul f)) eqn:Ea; [|discriminate]. intros H. apply Some_inj in H. subst e.
+  cbn [bytes_ok forallb] in Hb. apply andb_true_iff in Hb as [Hk Hf].
+  unfold good_entry. cbn [fst snd]. repeat split.
+  - exact Hk.
+  - apply no_nul_cut_nul.
+  - exact Ea.
+  - now apply bytes_ok_cut_nul.
+  - pose proof (cut_nul_length f). cbn [length] in Hl. unfold lookup_entry_size in Hl. unfold lookup_name_size. lia.
+Qed.
+
+Lemma lookup_entries_good cs : forall es, Forall (fun c => length c = lookup_entry_size) cs ->
+  Forall (fun c => bytes_ok c = true) cs -> lookup_entries cs = Some es -> Forall good_entry es.
+Proof.
+  induction cs as [|c cs IH]; intros es Hl Hb H.
+  - cbn in H. apply Some_inj in H. subst es. constructor.
+  - cbn [lookup_entries] in H. inversion Hl as [|? ? Hl1 Hl2]; subst. inversion Hb as [|? ? Hb1 Hb2]; subst.
+    destruct (lookup_entry c) as [e|] eqn:Ee; [|discriminate].
+    destruct (lookup_entries cs) as [es'|] eqn:Es; [|discriminate].
+    apply Some_inj in H. subst es. constructor; [now apply (lookup_entry_good c)|now apply IH].
+Qed.
+
+Lemma dict_set_keys d k v x : In x (map fst (dict_set d k v)) <-> In x (map fst d) \/ x = k.
+Proof.
+  induction d as [|[k' v'] r IH]; cbn [dict_set map fst In].
+  - split; [intros [ <- | [] ]; now right|intros [ [] | -> ]; now left].
+  - destruct (k' =? k) eqn:E; cbn [map fst In].
+    + apply Z.eqb_eq in E. subst k'. split; [intros H; now left|intros [H| -> ]; [exact H|now left]].
+    + rewrite IH. tauto.
+Qed.
+
+Lemma dict_set_NoDup d k v : NoDup (map fst d) -> NoDup (map fst (dict_set d k v)).
+Proof.
+  induction d as [|[k' v'] r IH]; cbn [dict_set map fst]; intros H.
+  - constructor; [intros []|constructor].
+  - inversion H as [|? ? Hn Hr]; subst. destruct (k' =? k) eqn:E; cbn [map fst].
+    + constructor; assumption.
+    + constructor; [|now apply IH]. rewrite dict_set_keys. intros [Hi|He]; [contradiction|]. subst k'. rewrite Z.eqb_refl in E. discriminate.
+Qed.
+
+Lemma dict_set_In d k v e : In e (dict_set d k v) -> In e d \/ e = (k, v).
+Proof.
+  induction d as [|[k' v'] r IH]; cbn [dict_set In].
+  - intros [ <- | [] ]. now right.
+  - destruct (k' =? k) eqn:E; cbn [In].
+    + apply Z.eqb_eq in E. subst k'. intros [ <- |H]; [now right|left; now right].
+    + intros [ <- |H]; [left; now left|]. destruct (IH H) as [Hi|He]; [left; now right|now right].
+Qed.
+
+Lemma dict_set_fresh d k v : ~ In k (map fst d) -> dict_set d k v = d ++ [(k, v)].
+Proof.
+  induction d as [|[k' v'] r IH]; cbn [dict_set map fst In app]; intros H; [reflexivity|].
+  destruct (k' =? k) eqn:E; [apply Z.eqb_eq in E; subst k'; exfalso; apply H; now left|].
+  rewrite IH; [reflexivity|]. intros Hi. apply H. now right.
+Qed.
+
+Lemma dict_fold_inv es : forall acc, NoDup (map fst acc) -> Forall good_entry acc -> Forall good_entry es ->
+  let d := fold_left (fun d e => dict_set d (fst e) (snd e)) es acc in NoDup (map fst d) /\ Forall good_entry d.
+Proof.
+  induction es as [|e es IH]; intros acc Hn Hg He; [split; assumption|].
+  inversion He as [|? ? He1 He2]; subst. cbn [fold_left]. apply IH; [now apply dict_set_NoDup| |exact He2].
+  apply Forall_forall. intros x Hx. apply dict_set_In in Hx as [Hx| -> ].
+  - rewrite Forall_forall in Hg. now apply Hg.
+  - destruct e; exact He1.
+Qed.
+
+Lemma dict_fold_fresh es : forall acc, NoDup (map fst (acc ++ es)) ->
+  fold_left (fun d e => dict_set d (fst e) (snd e)) es acc = acc ++ es.
+Proof.
+  induction es as [|e es IH]; intros acc H; [now rewrite app_nil_r|].
+  cbn [fold_left]. rewrite dict_set_fresh.
+  - destruct e as [k v]. cbn [fst snd]. rewrite IH; rewrite <- app_assoc; [reflexivity|exact H].
+  - rewrite map_app in H. cbn [map] in H. apply NoDup_remove_2 in H. intros Hi. apply H. apply in_or_app. now left.
+Qed.
+
+Lemma ser_lookup_good l : Forall good_entry l -> ser_lookup l = Ok (concat (map enc_entry l)).
+Proof.
+  induction l as [|e l IH]; intros H; [reflexivity|].
+  inversion H as [|? ? He Hl]; subst. cbn [ser_lookup map concat]. rewrite (IH Hl).
+  destruct He as (Hk & _ & _ & _ & Hlen). unfold ser_lookup_entry.
+  destruct (Nat.ltb lookup_name_size (length (snd e))) eqn:E; [apply Nat.ltb_lt in E; lia|].
+  rewrite Hk. reflexivity.
+Qed.
+
+Lemma enc_entry_length e : good_entry e -> length (enc_entry e) = lookup_entry_size.
+Proof.
+  intros (_ & _ & _ & _ & Hlen). unfold enc_entry. cbn [length]. rewrite app_length, zeros_length.
+  unfold lookup_name_size, lookup_entry_size in *. lia.
+Qed.
+
+Lemma enc_entry_bytes_ok e : good_entry e -> bytes_ok (enc_entry e) = true.
+Proof.
+  intros (Hk & _ & _ & Hb & _). unfold enc_entry. cbn [bytes_ok forallb]. rewrite Hk.
+  change (forallb byte_ok (snd e ++ zeros (lookup_name_size - length (snd e)))) with (bytes_ok (snd e ++ zeros (lookup_name_size - length (snd e)))).
+  now rewrite bytes_ok_app, Hb, bytes_ok_zeros.
+Qed.
+
+Lemma lookup_entry_enc e : good_entry e -> lookup_entry (enc_entry e) = Some e.
+Proof.
+  intros (_ & Hn & Ha & _ & _). unfold enc_entry. cbn [lookup_entry].
+  destruct (cut_nul_app_zeros (snd e) (lookup_name_size - length (snd e)) [] Hn) as [_ ->].
+  rewrite Ha. now destruct e.
+Qed.
+
+Lemma lookup_entries_enc l : Forall good_entry l -> lookup_entries (map enc_entry l) = Some l.
+Proof.
+  induction l as [|e l IH]; intros H; [reflexivity|].
+  inversion H as [|? ? He Hl]; subst. cbn [map lookup_entries]. now rewrite (lookup_entry_enc _ He), (IH Hl).
+Qed.
+
+Lemma split_chunks_concat0 w (cs : list (list Z)) : Forall (fun c => length c = w) cs ->
+  split_chunks (length cs) w (concat cs) = cs.
+Proof. intros H. rewrite <- (app_nil_r (concat cs)). now apply split_chunks_concat. Qed.
+
+Lemma parse_lookup_enc l : Forall good_entry l -> NoDup (map fst l) ->
+  parse_lookup (concat (map enc_entry l)) = Some l.
+Proof.
+  intros Hg Hn.
+  assert (Forall (fun c => length c = lookup_entry_size) (map enc_entry l)) as Hu.
+  { apply Forall_forall. intros c Hc. apply in_map_iff in Hc as (e & <- & He).
+    apply enc_entry_length. rewrite Forall_forall in Hg. now apply Hg. }
+  unfold parse_lookup. rewrite (concat_length_uniform _ _ Hu), map_length.
+  rewrite Nat.mod_mul by discriminate. rewrite Nat.div_mul by discriminate. cbn [Nat.eqb].
+  rewrite <- (map_length enc_entry l) at 1. rewrite (split_chunks_concat0 _ _ Hu).
+  rewrite (lookup_entries_enc _ Hg). cbn [option_map]. f_equal.
+  unfold dict_of. now rewrite (dict_fold_fresh l []).
+Qed.
+
+(* the parsed dict always re-serialises, to bytes that parse to the same dict *)
+Lemma lookup_stable p l : bytes_ok p = true -> parse_lookup p = Some l ->
+  exists q, ser_lookup l = Ok q /\ parse_lookup q = Some l /\ bytes_ok q = true.
+Proof.
+  intros Hb. unfold parse_lookup.
+  destruct (Nat.eqb (length p mod lookup_entry_size) 0) eqn:Em; [|discriminate].
+  set (cs := split_chunks (length p / lookup_entry_size) lookup_entry_size p).
+  destruct (lookup_entries cs) as [es|] eqn:Ee; [|discriminate]. cbn [option_map]. intros H. apply Some_inj in H.
+  destruct (split_chunks_shape (length p / lookup_entry_size) lookup_entry_size p (div_mul_le _ _)) as [Hshape _].
+  pose proof (lookup_entries_good cs es Hshape (split_chunks_bytes_ok _ _ _ Hb) Ee) as Hg.
+  destruct (dict_fold_inv es [] (NoDup_nil _) (Forall_nil _) Hg) as [Hn Hgl].
+  fold (dict_of es) in Hn, Hgl. rewrite H in Hn, Hgl.
+  exists (concat (map enc_entry l)). split; [now apply ser_lookup_good|]. split; [now apply parse_lookup_enc|].
+  apply bytes_ok_concat. apply Forall_forall. intros c Hc. apply in_map_iff in Hc as (e & <- & He).
+  apply enc_entry_bytes_ok. rewrite Forall_forall in Hgl. now apply Hgl.
+Qed.
+
+Lemma distinct_NoDup ks : distinct ks = true -> NoDup ks.
+Proof.
+  induction ks as [|k r IH]; intros H; [constructor|].
+  cbn [distinct] in H. apply andb_true_iff in H as [Hk Hr]. constructor; [|now apply IH].
+  intros Hi. apply negb_true_iff in Hk. assert (existsb (Z.eqb k) r = true) as Hx; [|congruence].
+  apply existsb_exists. exists k. split; [exact Hi|apply Z.eqb_refl].
+Qed.
+
+Lemma lookup_entries_clean cs : forall es, lookup_entries cs = Some es ->
+  Forall (fun c => length c = lookup_entry_size) cs -> forallb clean_entry cs = true ->
+  map enc_entry es = cs /\ map fst es = map (fun c => hd 0 c) cs.
+Proof.
+  induction cs as [|c cs IH]; intros es H Hl Hc.
+  - cbn in H. apply Some_inj in H. subst es. split; reflexivity.
+  - cbn [lookup_entries] in H. cbn [forallb] in Hc. apply andb_true_iff in Hc as [Hc1 Hc2].
+    inversion Hl as [|? ? Hl1 Hl2]; subst.
+    destruct (lookup_entry c) as [e|] eqn:Ee; [|discriminate].
+    destruct (lookup_entries cs) as [es'|] eqn:Es; [|discriminate].
+    apply Some_inj in H. subst es. destruct (IH es' eq_refl Hl2 Hc2) as [H1 H2].
+    cbn [map]. rewrite H1, H2. destruct c as [|k f]; [discriminate|].
+    cbn [lookup_entry] in Ee. destruct (ascii_ok (cut_nul f)); [|discriminate]. apply Some_inj in Ee. subst e.
+    cbn [clean_entry] in Hc1. apply andb_true_iff in Hc1 as [_ Hf]. apply list_eqb_eq in Hf.
+    unfold enc_entry. cbn [fst snd hd]. rewrite <- Hf. split; reflexivity.
+Qed.
+
+(* whole entries, distinct class ids, NUL-clean name fields: the payload is re-emitted byte for byte *)
+Lemma lookup_identity p l : bytes_ok p = true -> wf_lookup_payload p = true -> parse_lookup p = Some l -> ser_lookup l = Ok p.
+Proof.
+  intros Hb Hw. unfold wf_lookup_payload in Hw. unfold parse_lookup.
+  set (cs := split_chunks (length p / lookup_entry_size) lookup_entry_size p) in *.
+  apply andb_true_iff in Hw as [Hw Hd]. apply andb_true_iff in Hw as [Hm Hc]. rewrite Hm.
+  destruct (lookup_entries cs) as [es|] eqn:Ee; [|discriminate]. cbn [option_map]. intros H. apply Some_inj in H.
+  destruct (split_chunks_shape (length p / lookup_entry_size) lookup_entry_size p (div_mul_le _ _)) as [Hshape _].
+  pose proof (lookup_entries_good cs es Hshape (split_chunks_bytes_ok _ _ _ Hb) Ee) as Hg.
+  destruct (lookup_entries_clean cs es Ee Hshape Hc) as [Henc Hkeys].
+  apply distinct_NoDup in Hd. rewrite <- Hkeys in Hd.
+  unfold dict_of in H. rewrite (dict_fold_fresh es [] Hd) in H. cbn [app] in H. subst l.
+  rewrite (ser_lookup_good _ Hg), Henc. f_equal. unfold cs. apply concat_split_exact; [discriminate|].
+  now apply Nat.eqb_eq.
+Qed.
+
+Lemma lookup_bad_length p : (length p mod lookup_entry_size <> 0)%nat -> parse_lookup p = None.
+Proof.
+  intros H. unfold parse_lookup. destruct (Nat.eqb (length p mod lookup_entry_size) 0) eqn:E; [|reflexivity].
+  apply Nat.eqb_eq in E. contradiction.
+Qed.
+
+(* ------------------------------------------------------------------------------------ *)
+(* GeoKeyDirectory                                                                       *)
+(* ------------------------------------------------------------------------------------ *)
+Lemma geokeys_shape p g : parse_geokeys p = Some g ->
+  length (gk_head g) = (gk_header_size - 2)%nat /\ 0 <= gk_count g < 65536
+  /\ Forall (fun c => length c = gk_entry_size) (gk_keys g) /\ length (gk_keys g) = Z.to_nat (gk_count g).
+Proof.
+  unfold parse_geokeys. destruct (Nat.ltb (length p) gk_header_size) eqn:E; [discriminate|].
+  apply Nat.ltb_ge in E. intros H. apply Some_inj in H. subst g. cbn [gk_head gk_count gk_keys].
+  set (kd := skipn gk_header_size p).
+  pose proof (Z.mod_pos_bound (Z.of_nat (length kd / gk_entry_size)) 65536 eq_refl) as Hm.
+  split; [rewrite firstn_length; unfold gk_header_size in *; lia|]. split; [exact Hm|].
+  apply split_chunks_shape.
+  assert (Z.of_nat (length kd / gk_entry_size) mod 65536 <= Z.of_nat (length kd / gk_entry_size)) as Hle
+    by (apply Z.mod_le; lia).
+  pose proof (div_mul_le (length kd) gk_entry_size). nia.
+Qed.
+
+Lemma geokeys_stable p g : parse_geokeys p = Some g -> parse_geokeys (ser_geokeys g) = Some g.
+Proof.
+  intros H. destruct (geokeys_shape _ _ H) as (Hh & Hc & Hk & Hn). clear H.
+  destruct g as [h c ks]. cbn [gk_head gk_count gk_keys] in *. unfold ser_geokeys, parse_geokeys. cbn [gk_head gk_count gk_keys].
+  assert (length (h ++ le_enc 2 c) = gk_header_size) as Hl8
+    by (rewrite app_length, le_enc_length, Hh; reflexivity).
+  rewrite app_assoc. rewrite app_length, Hl8.
+  destruct (Nat.ltb (gk_header_size + length (concat ks)) gk_header_size) eqn:E; [apply Nat.ltb_lt in E; lia|].
+  rewrite skipn_app_exact by exact Hl8.
+  rewrite <- app_assoc. rewrite firstn_app_exact by exact Hh.
+  rewrite (concat_length_uniform _ _ Hk), Nat.div_mul by discriminate. rewrite Hn, Z2Nat.id by lia.
+  rewrite Z.mod_small by lia. rewrite <- Hn. now rewrite (split_chunks_concat0 _ _ Hk).
+Qed.
+
+(* exactly 8 + 8k bytes whose count field says k: re-emitted byte for byte *)
+Lemma geokeys_identity p g : wf_geokeys_payload p = true -> parse_geokeys p = Some g -> ser_geokeys g = p.
+Proof.
+  unfold wf_geokeys_payload. intros Hw.
+  apply andb_true_iff in Hw as [Hw Hb]. apply andb_true_iff in Hw as [Hw Hcnt]. apply andb_true_iff in Hw as [Hlen Hmod].
+  apply Nat.leb_le in Hlen. apply Nat.eqb_eq in Hmod. apply Z.eqb_eq in Hcnt.
+  unfold parse_geokeys. destruct (Nat.ltb (length p) gk_header_size) eqn:E; [apply Nat.ltb_lt in E; lia|].
+  intros H. apply Some_inj in H. subst g. unfold ser_geokeys. cbn [gk_head gk_count gk_keys].
+  set (cf := firstn 2 (skipn (gk_header_size - 2) p)) in *.
+  assert (length cf = 2%nat) as Hcl.
+  { unfold cf. rewrite firstn_length, skipn_length. unfold gk_header_size in *. lia. }
+  assert (bytes_ok cf = true) as Hcb by (unfold cf; apply bytes_ok_firstn, bytes_ok_skipn, Hb).
+  pose proof (le_dec_bounds cf Hcb) as Hbound. rewrite Hcl in Hbound. change (256 ^ Z.of_nat 2) with 65536 in Hbound.
+  rewrite skipn_length. rewrite <- Hcnt. rewrite Z.mod_small by lia.
+  assert (le_enc 2 (le_dec cf) = cf) as -> by (rewrite <- Hcl; apply le_enc_dec; exact Hcb).
+  rewrite Hcnt, Nat2Z.id. rewrite <- (skipn_length gk_header_size p).
+  rewrite concat_split_exact; [|discriminate|now rewrite skipn_length].
+  unfold cf. rewrite app_assoc, <- firstn_add.
+  replace (gk_header_size - 2 + 2)%nat with gk_header_size by reflexivity. apply firstn_skipn.
+Qed.
+
+Lemma geokeys_short p : (length p < gk_header_size)%nat -> parse_geokeys p = None.
+Proof.
+  intros H. unfold parse_geokeys. destruct (Nat.ltb (length p) gk_header_size) eqn:E; [reflexivity|].
+  apply Nat.ltb_ge in E. lia.
+Qed.
+
+Lemma bytes_ok_ser_geokeys p g : bytes_ok p = true -> parse_geokeys p = Some g -> bytes_ok (ser_geokeys g) = true.
+Proof.
+  intros Hb. unfold parse_geokeys. destruct (Nat.ltb (length p) gk_header_size); [discriminate|].
+  intros H. apply Some_inj in H. subst g. unfold ser_geokeys. cbn [gk_head gk_count gk_keys].
+  rewrite !bytes_ok_app, le_enc_bytes_ok, (bytes_ok_firstn _ _ Hb). cbn [andb].
+  apply bytes_ok_concat, split_chunks_bytes_ok, bytes_ok_skipn, Hb.
+Qed.
+
+(* ------------------------------------------------------------------------------------ *)
+(* dispatch                                                                              *)
+(* ------------------------------------------------------------------------------------ *)
+Lemma find_class_sound tbl uid rid cls lo : find_class tbl uid rid = Some (cls, lo) ->
+  exists hi, In (cls, uid, lo, hi) tbl /\ lo <= rid <= hi.
+Proof.
+  induction tbl as [|[[[c u] l] h] r IH]; [discriminate|]. cbn [find_class].
+  destruct (list_eqb u uid && (l <=? rid) && (rid <=? h)) eqn:E.
+  - intros H. apply Some_inj in H. injection H as -> ->.
+    apply andb_true_iff in E as [E E3]. apply andb_true_iff in E as [E1 E2]. apply list_eqb_eq in E1. subst u.
+    exists h. split; [now left|lia].
+  - intros H. destruct (IH H) as (hi & Hi & Hr). exists hi. split; [now right|exact Hr].
+Qed.
+
+Lemma find_class_no_uid tbl uid rid :
+  (forall cls u lo hi, In (cls, u, lo, hi) tbl -> list_eqb u uid = false) -> find_class tbl uid rid = None.
+Proof.
+  induction tbl as [|[[[c u] l] h] r IH]; intros H; [reflexivity|]. cbn [find_class].
+  rewrite (H c u l h (or_introl eq_refl)). cbn [andb]. apply IH. intros cls u' lo hi Hi. apply (H cls u' lo hi). now right.
+Qed.
+
+Lemma class_eqb_eq a b : class_eqb a b = true -> a = b.
+Proof.
+  destruct a as [[c1 l1]|], b as [[c2 l2]|]; cbn [class_eqb]; intros H; try discriminate; [|reflexivity].
+  apply andb_true_iff in H as [Hc Hl]. apply String.eqb_eq in Hc. apply Z.eqb_eq in Hl. now subst.
+Qed.
+
+Lemma sweep_uid u : forall_below 65536 (fun rid => class_eqb (find_class known_table u rid) (class_spec u rid)) = true ->
+  forall rid, 0 <= rid < 65536 -> find_class known_table u rid = class_spec u rid.
+Proof. intros H rid Hr. apply class_eqb_eq. exact (forall_below_spec _ _ H rid Hr). Qed.
+
+Lemma sweep_spec : forall_below 65536 (fun rid => class_eqb (find_class known_table UID_LASF_Spec rid) (class_spec UID_LASF_Spec rid)) = true.
+Proof. vm_compute. reflexivity. Qed.
+Lemma sweep_proj : forall_below 65536 (fun rid => class_eqb (find_class known_table UID_LASF_Projection rid) (class_spec UID_LASF_Projection rid)) = true.
+Proof. vm_compute. reflexivity. Qed.
+Lemma sweep_laszip : forall_below 65536 (fun rid => class_eqb (find_class known_table UID_laszip rid) (class_spec UID_laszip rid)) = true.
+Proof. vm_compute. reflexivity. Qed.
+Lemma sweep_copc : forall_below 65536 (fun rid => class_eqb (find_class known_table UID_copc rid) (class_spec UID_copc rid)) = true.
+Proof. vm_compute. reflexivity. Qed.
+
+Lemma table_uids : forallb (fun row : string * list Z * Z * Z => let '(_, u, _, _) := row in
+    existsb (list_eqb u) [UID_LASF_Spec; UID_LASF_Projection; UID_laszip; UID_copc]) known_table = true.
+Proof. vm_compute. reflexivity. Qed.
+
+(* the table generated from the running module dispatches exactly as the specification says, for every user id
+   and every 16-bit record id *)
+Theorem dispatch_spec uid rid : 0 <= rid < 65536 -> find_class known_table uid rid = class_spec uid rid.
+Proof.
+  intros Hr.
+  destruct (list_eqb UID_LASF_Spec uid) eqn:E1; [apply list_eqb_eq in E1; subst uid; exact (sweep_uid _ sweep_spec rid Hr)|].
+  destruct (list_eqb UID_LASF_Projection uid) eqn:E2; [apply list_eqb_eq in E2; subst uid; exact (sweep_uid _ sweep_proj rid Hr)|].
+  destruct (list_eqb UID_laszip uid) eqn:E3; [apply list_eqb_eq in E3; subst uid; exact (sweep_uid _ sweep_laszip rid Hr)|].
+  destruct (list_eqb UID_copc uid) eqn:E4; [apply list_eqb_eq in E4; subst uid; exact (sweep_uid _ sweep_copc rid Hr)|].
+  unfold class_spec. rewrite E1, E2, E3, E4. apply find_class_no_uid.
+  intros cls u lo hi Hi. pose proof table_uids as Ht. rewrite forallb_forall in Ht. specialize (Ht _ Hi). cbn beta iota in Ht.
+  cbn [existsb] in Ht. rewrite orb_false_r in Ht.
+  repeat (apply orb_true_iff in Ht as [Ht|Ht]); apply list_eqb_eq in Ht; subst u; assumption.
+Qed.
+
+Lemma table_single : forallb single_id_or_wave known_table = true.
+Proof. vm_compute. reflexivity. Qed.
+
+(* a parsed record is written under the record id it was read with *)
+Lemma find_class_rid uid rid cls lo : find_class known_table uid rid = Some (cls, lo) ->
+  (if String.eqb cls "WaveformPacketVlr" then rid else lo) = rid.
+Proof.
+  intros H. destruct (find_class_sound _ _ _ _ _ H) as (hi & Hi & Hr).
+  pose proof table_single as Ht. rewrite forallb_forall in Ht. specialize (Ht _ Hi). unfold single_id_or_wave in Ht.
+  destruct (String.eqb cls "WaveformPacketVlr"); [reflexivity|]. cbn [orb] in Ht. apply Z.eqb_eq in Ht. lia.
+Qed.
+
+(* ------------------------------------------------------------------------------------ *)
+(* vlr_factory                                                                           *)
+(* ------------------------------------------------------------------------------------ *)
+Lemma parse_class_stable cls p c : bytes_ok p = true -> parse_class cls p = Some (Some c) ->
+  exists q, ser_content c = Ok q /\ parse_class cls q = Some (Some c) /\ bytes_ok q = true.
+Proof.
+  intros Hb. unfold parse_class.
+  destruct (String.eqb cls "ClassificationLookupVlr") eqn:E1.
+  { destruct (parse_lookup p) as [l|] eqn:Ep; cbn [option_map]; intros H; [|discriminate].
+    apply Some_inj in H. apply Some_inj in H. subst c.
+    destruct (lookup_stable _ _ Hb Ep) as (q & Hs & Hp & Hq). exists q. cbn [ser_content]. now rewrite Hp. }
+  destruct (String.eqb cls "LasZipVlr") eqn:E2.
+  { cbn [option_map parse_laszip]. intros H. apply Some_inj in H. apply Some_inj in H. subst c.
+    exists p. cbn [ser_content ser_laszip]. now repeat split. }
+  destruct (String.eqb cls "ExtraBytesVlr") eqn:E3.
+  { destruct (parse_extra p) as [l|] eqn:Ep; cbn [option_map]; intros H; [|discriminate].
+    apply Some_inj in H. apply Some_inj in H. subst c.
+    exists p. cbn [ser_content]. rewrite (extra_identity _ _ Ep), Ep. now repeat split. }
+  destruct (String.eqb cls "WaveformPacketVlr") eqn:E4.
+  { destruct (parse_wave p) as [l|] eqn:Ep; cbn [option_map]; intros H; [|discriminate].
+    apply Some_inj in H. apply Some_inj in H. subst c.
+    exists (ser_wave l). cbn [ser_content]. rewrite (wave_stable _ _ Ep). repeat split.
+    unfold parse_wave in Ep. destruct (Nat.leb wf_struct_size (length p)); [|discriminate].
+    apply Some_inj in Ep. subst l. unfold ser_wave. now apply bytes_ok_firstn. }
+  destruct (String.eqb cls "GeoKeyDirectoryVlr") eqn:E5.
+  { destruct (parse_geokeys p) as [l|] eqn:Ep; cbn [option_map]; intros H; [|discriminate].
+    apply Some_inj in H. apply Some_inj in H. subst c.
+    exists (ser_geokeys l). cbn [ser_content]. rewrite (geokeys_stable _ _ Ep). repeat split.
+    now apply (bytes_ok_ser_geokeys p). }
+  destruct (String.eqb cls "GeoDoubleParamsVlr") eqn:E6.
+  { destruct (parse_doubles p) as [l|] eqn:Ep; cbn [option_map]; intros H; [|discriminate].
+    apply Some_inj in H. apply Some_inj in H. subst c.
+    exists p. cbn [ser_content]. rewrite (doubles_identity _ _ Ep), Ep. now repeat split. }
+  destruct (String.eqb cls "GeoAsciiParamsVlr") eqn:E7.
+  { destruct (parse_ascii p) as [l|] eqn:Ep; cbn [option_map]; intros H; [|discriminate].
+    apply Some_inj in H. apply Some_inj in H. subst c.
+    exists p. cbn [ser_content]. rewrite (ascii_identity _ _ Ep), Ep. now repeat split. }
+  assert (forall s, parse_wkt p = Some s -> exists q, Ok (ser_wkt s) = Ok q /\ parse_wkt q = Some s /\ bytes_ok q = true) as Hwkt.
+  { intros s Ep. exists (ser_wkt s). split; [reflexivity|]. split; [now apply (wkt_stable p)|].
+    destruct (wkt_normal_form _ _ Ep) as [-> _]. rewrite bytes_ok_app, (bytes_ok_strip _ Hb). reflexivity. }
+  destruct (String.eqb cls "WktMathTransformVlr") eqn:E8.
+  { destruct (parse_wkt p) as [l|] eqn:Ep; cbn [option_map]; intros H; [|discriminate].
+    apply Some_inj in H. apply Some_inj in H. subst c.
+    destruct (Hwkt l eq_refl) as (q & Hs & Hp & Hq). exists q. cbn [ser_content]. now rewrite Hp. }
+  destruct (String.eqb cls "WktCoordinateSystemVlr") eqn:E9; [|discriminate].
+  { destruct (parse_wkt p) as [l|] eqn:Ep; cbn [option_map]; intros H; [|discriminate].
+    apply Some_inj in H. apply Some_inj in H. subst c.
+    destruct (Hwkt l eq_refl) as (q & Hs & Hp & Hq). exists q. cbn [ser_content]. now rewrite Hp. }
+Qed.
+
+(* What the reader hands out is stable: the record written for it is dispatched to the same class and parses to the
+   same content, under the same user id, record id and description. *)
+Theorem factory_stable v v' : bytes_ok (v_data v) = true -> kv_record (vlr_factory v) = Ok v' ->
+  vlr_factory v' = vlr_factory v /\ v_uid v' = v_uid v /\ v_rid v' = v_rid v /\ v_desc v' = v_desc v
+  /\ bytes_ok (v_data v') = true.
+Proof.
+  intros Hb. unfold vlr_factory at 1 3.
+  destruct (find_class known_table (v_uid v) (v_rid v)) as [[cls lo]|] eqn:Ef.
+  - destruct (parse_class cls (v_data v)) as [[c|]|] eqn:Ep.
+    + cbn [kv_record]. destruct (parse_class_stable _ _ _ Hb Ep) as (q & Hs & Hp & Hq). rewrite Hs. cbn [bind].
+      intros H. injection H as <-. cbn [v_uid v_rid v_desc v_data]. rewrite (find_class_rid _ _ _ _ Ef).
+      repeat split; try assumption. unfold vlr_factory. cbn [v_uid v_rid v_desc v_data].
+      rewrite Ef, Hp. now rewrite (find_class_rid _ _ _ _ Ef).
+    + cbn [kv_record]. intros H. injection H as <-. unfold vlr_factory. rewrite Ef, Ep. now repeat split.
+    + discriminate.
+  - cbn [kv_record]. intros H. injection H as <-. unfold vlr_factory. rewrite Ef. now repeat split.
+Qed.
+
+(* no class for the ids, or a class whose parser fails: the raw record is kept, unchanged *)
+Theorem factory_fallback v :
+  (find_class known_table (v_uid v) (v_rid v) = None
+   \/ exists cls lo, find_class known_table (v_uid v) (v_rid v) = Some (cls, lo) /\ parse_class cls (v_data v) = Some None) ->
+  vlr_factory v = KRaw v /\ normalise v = Ok v.
+Proof.
+  unfold normalise, vlr_factory. intros [H|(cls & lo & H & Hp)]; rewrite H; [|rewrite Hp]; split; reflexivity.
+Qed.
+
+(* records of no known class are never touched *)
+Theorem factory_unknown v : 0 <= v_rid v < 65536 -> class_spec (v_uid v) (v_rid v) = None -> vlr_factory v = KRaw v.
+Proof. intros Hr H. apply factory_fallback. left. now rewrite dispatch_spec. Qed.
+
+(* ------------------------------------------------------------------------------------ *)
+(* lists: read, write what was read, read again                                          *)
+(* ------------------------------------------------------------------------------------ *)
+Lemma wf_vlr_bytes ext v : wf_vlr ext v = true -> bytes_ok (v_data v) = true.
+Proof.
+  unfold wf_vlr. intros H. apply andb_true_iff in H as [H _]. apply andb_true_iff in H as [_ H]. exact H.
+Qed.
+
+Theorem read_after_write ext vl bs rest : forallb (wf_vlr ext) vl = true -> enc_vlrs ext vl = Ok bs ->
+  read_known ext (length vl) (bs ++ rest) = Ok (map vlr_factory vl, rest).
+Proof. intros Hwf He. unfold read_known. now rewrite (dec_enc_vlrs ext vl bs rest Hwf He). Qed.
+
+Lemma kv_records_stable vl : forall vl', Forall (fun v => bytes_ok (v_data v) = true) vl ->
+  kv_records (map vlr_factory vl) = Ok vl' ->
+  map vlr_factory vl' = map vlr_factory vl /\ map v_uid vl' = map v_uid vl /\ map v_rid vl' = map v_rid vl
+  /\ map v_desc vl' = map v_desc vl /\ Forall (fun v => bytes_ok (v_data v) = true) vl'.
+Proof.
+  induction vl as [|v vl IH]; intros vl' Hb H.
+  - cbn in H. injection H as <-. repeat split; constructor.
+  - inversion Hb as [|? ? Hb1 Hb2]; subst. cbn [map kv_records] in H.
+    destruct (kv_record (vlr_factory v)) as [w|e] eqn:Ew; [|discriminate]. cbn [bind] in H.
+    destruct (kv_records (map vlr_factory vl)) as [ws|e] eqn:Ews; [|discriminate]. cbn [bind] in H. injection H as <-.
+    destruct (factory_stable v w Hb1 Ew) as (H1 & H2 & H3 & H4 & H5).
+    destruct (IH ws Hb2 eq_refl) as (I1 & I2 & I3 & I4 & I5).
+    cbn [map]. rewrite H1, H2, H3, H4, I1, I2, I3, I4. repeat split. now constructor.
+Qed.
+
+(* second generation: the list a user got from a file, written again and read again, is the list he had:
+   same length, order, classes, contents, ids and descriptions *)
+Theorem next_generation ext vl vl' bs' rest : forallb (wf_vlr ext) vl = true ->
+  kv_records (map vlr_factory vl) = Ok vl' -> forallb (wf_vlr ext) vl' = true -> enc_vlrs ext vl' = Ok bs' ->
+  read_known ext (length vl) (bs' ++ rest) = Ok (map vlr_factory vl, rest)
+  /\ map v_uid vl' = map v_uid vl /\ map v_rid vl' = map v_rid vl /\ map v_desc vl' = map v_desc vl.
+Proof.
+  intros Hwf Hk Hwf' He.
+  assert (Forall (fun v => bytes_ok (v_data v) = true) vl) as Hb.
+  { apply Forall_forall. intros v Hv. rewrite forallb_forall in Hwf. apply (wf_vlr_bytes ext). now apply Hwf. }
+  destruct (kv_records_stable vl vl' Hb Hk) as (H1 & H2 & H3 & H4 & _).
+  assert (length vl' = length vl) as Hl by (rewrite <- (map_length v_uid vl'), H2; apply map_length).
+  rewrite <- Hl, (read_after_write ext vl' bs' rest Hwf' He), H1. now repeat split.
+Qed.
+
+(* the record written for what was read is again a well-formed record, provided its payload still fits the length
+   field (only a WKT payload can grow: by the one NUL that is ensured at its end) *)
+Theorem normalise_wf ext v v' : wf_vlr ext v = true -> normalise v = Ok v' ->
+  (if ext then len (v_data v') <? 2 ^ 64 else len (v_data v') <=? 65535) = true -> wf_vlr ext v' = true.
+Proof.
+  intros Hwf Hn Hsz. unfold normalise in Hn.
+  destruct (factory_stable v v' (wf_vlr_bytes _ _ Hwf) Hn) as (_ & Hu & Hr & Hd & Hb).
+  unfold wf_vlr in *. rewrite Hu, Hr, Hd, Hb, Hsz.
+  apply andb_true_iff in Hwf as [Hwf _]. apply andb_true_iff in Hwf as [Hwf _]. now rewrite Hwf.
+Qed.
+
+(* ------------------------------------------------------------------------------------ *)
+(* the entry sizes of the running module are the specification's                          *)
+(* ------------------------------------------------------------------------------------ *)
+Lemma struct_sizes : lookup_entry_size = 16%nat /\ lookup_name_size = 15%nat /\ eb_struct_size = 192%nat
+  /\ wf_struct_size = 26%nat /\ gk_header_size = 8%nat /\ gk_entry_size = 8%nat /\ double_size = 8%nat
+  /\ factory_first_match_with_fallback = true.
+Proof. repeat split; reflexivity. Qed.
+
+Lemma extra_bad_length p : (length p mod eb_struct_size <> 0)%nat -> parse_extra p = None.
+Proof. apply parse_fixed_none. discriminate. Qed.
+Lemma extra_parses p : (length p mod eb_struct_size = 0)%nat -> exists c, parse_extra p = Some c.
+Proof. apply parse_fixed_some. Qed.
+Lemma doubles_bad_length p : (length p mod double_size <> 0)%nat -> parse_doubles p = None.
+Proof. apply parse_fixed_none. discriminate. Qed.
+Lemma doubles_parses p : (length p mod double_size = 0)%nat -> exists c, parse_doubles p = Some c.
+Proof. apply parse_fixed_some. Qed.
